@@ -204,7 +204,7 @@ def update_chain(st, start, n):
             cfg = f'[bumpver]\ncurrent_version = {cur}\nversion_pattern = {pattern}\ncommit = False\n\n[bumpver:file_patterns]\na.txt =\n    ver={{version}};\n'
             world.write_tree({"setup.cfg": cfg.encode(), "a.txt": f"ver={cur};\n".encode()})
             pattern = pattern + " (setup.cfg)"
-        os.mkdir(".git")
+        world.mark_repo("git", as_file=(pattern == "YYYY.BUILD"))  # (one of the four projects is a linked work tree: `.git` is a file)
         for i in range(n):
             fake = fakevcs.install(fakevcs.FakeVCS("git", tags_all=[prefix + start], tags_merged=[prefix + start], status=[]))
             try:
@@ -228,6 +228,27 @@ def update_chain(st, start, n):
             st.state("update-chain", pattern, o.new_version)
             st.outcomes["update-chain:step"] += 1
             cur = o.new_version
+        # the work tree is BEHIND the newest tag (another work tree released further): the next BUILD must exceed the tag's
+        ahead, first = cur, prefix + start
+        if ahead != first and fmt == "toml":
+            world.write_tree({"bumpver.toml": cfg.encode(), "a.txt": f"ver={first};\n".encode()})
+            fake = fakevcs.install(fakevcs.FakeVCS("git", tags_all=[first, ahead], tags_merged=[first, ahead], status=[]))
+            try:
+                o = world.cli("update", "--no-fetch", "--date", "2020-06-15")
+            finally:
+                fakevcs.uninstall()
+            st.evaluations += 1
+            st.transitions += 1
+            st.validated += 1
+            case = ["update-chain", pattern, start, n, ahead]
+            st.observe((pattern, start, "behind-tag", o.exit, o.new_version))
+            nb = (o.new_version or "")[len(prefix):]
+            if o.exit != 0 or not nb.isdigit() or int(nb) <= int(ahead[len(prefix):]):
+                st.outcomes["violation"] += 1
+                st.violation("C17:update-behind-the-newest-tag-build-not-increasing:" + _cls(start), case,
+                             {"announced": o.new_version, "newest_tag": ahead, "config": first, "exit": o.exit, "log": o.log[-3:]})
+            else:
+                st.outcomes["update-chain:step-from-behind-a-tag"] += 1
     os.chdir("/")
 
 
